@@ -14,7 +14,7 @@ TRUSTED = [
     "reservation theorems: valve, quake, unreal2; gamespy one/two/three and the single-game protocols are measured through the same allocator on count / index / offset mutations (no theorem yet)",
 ]
 RULE = ("extreme values written into every length / count / size / index position of Spec-generated valid scripts (split headers, compressed size and CRC, player and rule counts, "
-        "string terminators; a compressed reply whose valid bzip2 stream expands to 32-96 MiB behind a small announced size; GameSpy: maxplayers / numplayers / query ids as huge numbers, a huge part number inside the GameSpy 1 query id, a large index in the name of every kind of per-player variable, table row counts, field offsets; Unreal 2 announced counts; JC2M and Mindustry lengths) plus the C01 malformed stream; the implementation's measured largest single allocation must be <= 16 MiB, peak live <= 64 MiB, and the number of "
+        "string terminators; a compressed reply whose valid bzip2 stream expands to 32-96 MiB behind a small announced size; GameSpy: maxplayers / numplayers / query ids as huge numbers, a huge part number inside the GameSpy 1 query id, a large index in the name of every kind of per-player variable, table row counts, field offsets; Unreal 2 announced counts; JC2M and Mindustry lengths; Minecraft Java packet / id / string length VarInts up to 2^31-1) plus the C01 malformed stream; the implementation's measured largest single allocation must be <= 16 MiB, peak live <= 64 MiB, and the number of "
         "datagrams sent <= 3 (retries+1) + datagrams received; non-trivial = a length/count field was altered; distinct by case bytes")
 MIB = 1 << 20
 
@@ -127,6 +127,11 @@ def gen_cases(tier, rng):
             cases.append({"id": "gs1part/%d/%d" % (g["seed"], j), "hex": gs_case(1, 7777, 0, None, evs),
                           "meta": {"stream": "gamespy1-part-number", "retries": 0, "n": len(evs)}})
     cases += bomb_cases(tier)
+    # Minecraft Java: the packet length, packet id and string length VarInts of the status reply at their extremes
+    import C01
+    for c in C01.mc_framing_cases(tier, rng.fork("mcframe")):
+        c["meta"] = {"stream": "minecraft-java-framing", "retries": 0, "n": 1}
+        cases.append(c)
     # single-game protocols: JC2M player count, Mindustry lengths, the Valve-based ones
     for game in range(6):
         seeds_g = [rng.next() >> 1 for _ in range(40 if tier == "quick" else 1000)]
